@@ -141,6 +141,10 @@ def run_check(prop, tier, seed, families):
     return run.finish()
 
 
+ENV_PROPS = ('C02', 'C05', 'C08', 'C09', 'C10', 'C13')
+ENV_FAMILIES = ('data', 'meta', 'fault', 'readme')
+
+
 def run_family(run, prop, tier, seed, family):
     thorough = tier == 'thorough'
     rnd = random.Random(seed)
@@ -212,6 +216,19 @@ def run_family(run, prop, tier, seed, family):
     n2 = report(run, prop, mg, None, pres, 'path')
     run.add('paths_replayed', n2)
     run.add('path_steps', sum(x.get('steps', 0) for x in pres))
+    if prop in ENV_PROPS and family in ENV_FAMILIES:
+        # the same paths in an interpreter whose default text encoding is ASCII (LC_ALL=C without UTF-8 mode):
+        # nothing Darr writes or reads may depend on the locale of the process
+        sub = paths[:(400 if thorough else 48)]
+        info, eres = tour.env_path_tour(b, mg, props, sub, ncfg, tour.ASCII_ENV, seed=seed)
+        if info['utf8_mode'] or 'UTF' in info['encoding'].upper():
+            raise Machinery('the ASCII-locale child runs with %r' % (info,))
+        for x in eres:
+            for pp in list(x.get('mism', {})):
+                x['mism'][pp] = [('locale=C:' + str(mm[0]),) + tuple(mm[1:]) for mm in x['mism'][pp]]
+        n3 = report(run, prop, mg, None, eres, 'path')
+        run.add('paths_replayed_under_ascii_locale', n3)
+        run.cov['ascii_locale_child'] = info
     run.add('traces_validated_against_impl', n1 + n2)
     run.add('configurations', len({tuple(sorted((k, str(v)) for k, v in x['cfg'].items())) for x in res if 'cfg' in x}))
     run.cov['exhaustive_over_macro_edges'] = True
